@@ -43,3 +43,61 @@ def plan_C07(tier, seed, q):
         "assumptions": ["reference codecs in harness/wire follow the documented formats",
                         "method names and error texts are valid UTF-8 under the json header (as the property states)"],
     }
+
+
+def e2e_jobs(prop, tier, seed, profile, nq, nt, shards=12, scale_t=3, race_t=0, kind="vt"):
+    q = tier == "quick"
+    n = nq if q else nt
+    jobs = shard(kind, "e2e", prop, tier, seed, n, shards, timeout=900 if q else 2400,
+                 extra={"profile": profile, "scale": 1 if q else scale_t})
+    if not q and race_t:
+        jobs += shard("vt-race", "e2e", prop, tier, seed + 1000, race_t, shards, timeout=2400,
+                      extra={"profile": profile, "scale": 1})
+    return jobs
+
+
+E2E_RULE = ("scenario = (header encoder, body codec, server modes, client modes, buffer sizes, fragmentation, connections, "
+            "callers, op list) derived from (seed, index); run on the real Server/Conn stack over the in-memory network "
+            "inside a synctest bubble until quiescence; distinct = distinct (configuration, profile, hash of the server's "
+            "execution order); non-trivial = more than one operation or at least one stream")
+V_ASSUME = ["go1.26.8 testing/synctest schedules the real library code faithfully (virtual clock, quiescence detection)",
+            "memnet models a reliable byte stream with arbitrary fragmentation; no OS socket is involved"]
+
+
+def plan_C01(tier, seed, q):
+    return {"level": "exploration", "rule": E2E_RULE + "; oracle: reply == f(own args) byte for byte and handler saw exactly those args",
+            "jobs": e2e_jobs("C01", tier, seed, "mix", 420, 6000, race_t=600),
+            "min_evaluations": 100, "min_distinct": 50, "assumptions": V_ASSUME}
+
+
+def plan_C05(tier, seed, q):
+    return {"level": "exploration", "rule": E2E_RULE + "; profile 'order': server pipelining on, one issuer per connection using Go on a shared Done "
+            "channel; oracles: handler entry order == issue order per connection, no overlap, wire response order == request order, "
+            "arrival order on Done == issue order when the client pipelines too",
+            "jobs": e2e_jobs("C05", tier, seed, "order", 300, 4000, race_t=400),
+            "min_evaluations": 100, "min_distinct": 50, "assumptions": V_ASSUME}
+
+
+def plan_C06(tier, seed, q):
+    return {"level": "exploration", "rule": E2E_RULE + "; profile 'errors': ~45% of the calls fail (handler error with generated text, unknown method, "
+            "undecodable arguments, unencodable reply, unencodable request); oracles: text == server text (handler text, or the text "
+            "seen on the wire for library-generated errors) at return and at the end of the scenario, reply object untouched, "
+            "neighbours correct, NumCalls()==0 afterwards",
+            "jobs": e2e_jobs("C06", tier, seed, "errors", 400, 6000, race_t=600) + e2e_jobs("C06", tier, seed + 7, "mix", 120, 1500),
+            "min_evaluations": 100, "min_distinct": 50, "assumptions": V_ASSUME}
+
+
+def plan_C09(tier, seed, q):
+    return {"level": "exploration", "rule": E2E_RULE + "; profile 'streams': 1-16 streams per connection, handler pushes 0/1/5 messages right after open, "
+            "client writes first or reads first, echo/sink/burst steps, unary traffic alongside; oracles: sequence equality on both ends, "
+            "no reader blocked at quiescence",
+            "jobs": e2e_jobs("C09", tier, seed, "streams", 400, 6000, race_t=600) + e2e_jobs("C09", tier, seed + 7, "mix", 120, 1500),
+            "min_evaluations": 100, "min_distinct": 50, "assumptions": V_ASSUME}
+
+
+def plan_C11(tier, seed, q):
+    return {"level": "exploration", "rule": E2E_RULE + "; profile 'retain': aliasing codecs (bytes, pb, code), handlers keep their argument slices, callers keep "
+            "replies (fresh and context-buffer) and stream messages, GC forced every 3 virtual ms; oracles: SHA-256 at hand-over == "
+            "SHA-256 at the end, canary bytes of caller-supplied buffers beyond the encoded reply untouched",
+            "jobs": e2e_jobs("C11", tier, seed, "retain", 240, 3000, race_t=300) + e2e_jobs("C11", tier, seed + 7, "mix", 120, 1500),
+            "min_evaluations": 100, "min_distinct": 50, "assumptions": V_ASSUME}
